@@ -94,7 +94,7 @@ func c27Prove(t interface{ Fatalf(string, ...interface{}) }, path []byte, root c
 	return merkle.MerkleProve(path, root)
 }
 
-const c27Rule = "lists of 1..200 values (0..100 bytes, 64/65-byte values and occasional duplicates included), exhaustive list sizes 1..64 (quick) / 1..260 (thorough) with every member; " +
+const c27Rule = "lists of 1..200 values (0..100 bytes, 64/65-byte values and occasional duplicates included), exhaustive list sizes 1..64 (quick) / 1..600 (thorough) with every member; " +
 	"mutations of a genuine path: value bytes, one sibling hash, direction byte, dropped/added level, trailing bytes, internal node presented as value (with and without prefix byte), other root; " +
 	"non-trivial = list size >= 2 for completeness cases, every mutated path for soundness cases; distinct = different (seed, size, member) or (list, member, mutation)"
 
@@ -117,7 +117,7 @@ func TestC27_ExhaustiveMembers(t *testing.T) {
 	ev := harn.For("C27").Rule(c27Rule)
 	N := 64
 	if harn.Thorough() {
-		N = 260
+		N = 600
 	}
 	seed := harn.Seed()
 	for n := 1; n <= N; n++ {
@@ -162,8 +162,8 @@ func TestC27_ExhaustiveMembers(t *testing.T) {
 // Generated lists and mutated paths: soundness.
 func TestC27_MutatedPaths(t *testing.T) {
 	ev := harn.For("C27").Rule(c27Rule)
-	ev.Floor("proved:member-after-mutation", "", 0.01)
-	harn.Check(t, 20000, 1000000, func(t *rapid.T) {
+	ev.Floor("proved:value-in-list", "mutated:cases", 0.01)
+	harn.Check(t, 40000, 1000000, func(t *rapid.T) {
 		var n int
 		switch rapid.IntRange(0, 2).Draw(t, "sizekind") {
 		case 0:
@@ -319,7 +319,7 @@ func TestC27_MutatedPaths(t *testing.T) {
 			} else if !inList[c27LeafHash(got)] {
 				t.Fatalf("mutation %s on member %d of %d: path %x proves value %x against the list root, but sha256(0x00||value) is not in the list (values %d)", kind, idx, n, raw, got, len(vals))
 			}
-			ev.Class("proved:member-after-mutation")
+			ev.Class("proved:value-in-list")
 		} else {
 			ev.Class("rejected")
 		}
@@ -327,6 +327,7 @@ func TestC27_MutatedPaths(t *testing.T) {
 			t.Fatalf("unmutated path rejected: %v", perr)
 		}
 		ev.Class("mutation:" + kind)
+		ev.Class("mutated:cases")
 		ev.Case(kind != "none", fmt.Sprintf("n=%d member=%d mutation=%s path=%s", n, idx, kind, harn.Hex(raw)))
 	})
 }
@@ -334,7 +335,7 @@ func TestC27_MutatedPaths(t *testing.T) {
 // Values that are not in the list never get a path, and a path assembled for them from genuine siblings never proves.
 func TestC27_NonMembers(t *testing.T) {
 	ev := harn.For("C27").Rule(c27Rule)
-	harn.Check(t, 6000, 300000, func(t *rapid.T) {
+	harn.Check(t, 12000, 300000, func(t *rapid.T) {
 		n := rapid.IntRange(1, 120).Draw(t, "n")
 		cseed := rapid.Uint64().Draw(t, "fill")
 		vals := c27Values(cseed, n)
